@@ -1,4 +1,4 @@
-module ssecheck
+module golang.org/x/tools/ssecheck
 
 go 1.22.0
 
